@@ -2,6 +2,7 @@ import json
 import datetime as dt
 
 from mindsdb_sql.parser.ast.base import ASTNode
+from mindsdb_sql.parser.ast.select.operation import param_to_string
 from mindsdb_sql.parser.utils import indent
 
 
@@ -67,15 +68,15 @@ class CreateJob(ASTNode):
 
         start_str = ''
         if self.start_str is not None:
-            start_str = f" START '{self.start_str}'"
+            start_str = f" START {param_to_string(self.start_str)}"
 
         end_str = ''
         if self.end_str is not None:
-            end_str = f" END '{self.end_str}'"
+            end_str = f" END {param_to_string(self.end_str)}"
 
         repeat_str = ''
         if self.repeat_str is not None:
-            repeat_str = f" EVERY '{self.repeat_str}'"
+            repeat_str = f" EVERY {param_to_string(self.repeat_str)}"
 
         if_query_str = ''
         if self.if_query_str is not None:
